@@ -6,6 +6,7 @@ use crate::props::c19::{canonical_diff_opts, DiffOpts};
 use crate::report::Report;
 use crate::rng::{fnv, Rng};
 use crate::scen::{self, TargetCfg};
+use crate::spec::{ThreadKind, SLOT_EXIT_REQ};
 use crate::target::Target;
 use crate::tspec::*;
 use serde_json::{json, Value};
@@ -316,6 +317,7 @@ pub fn run(rep: &mut Report, thorough: bool) {
             Err(e) => rep.violation("C11 dump failed on a target whose leader exited", json!({"error": e})),
         }
     }
+    vanish_before_name_read(rep, &mut rng, if thorough { 12 } else { 3 });
     cpuinfo_variants(rep, &mut rng, thorough);
     rep.require("failspot_subsets_run", 32);
     rep.require("natural_failure_dumps", 3);
@@ -424,4 +426,74 @@ fn cpuinfo_variants(rep: &mut Report, rng: &mut Rng, thorough: bool) {
     }
     let _ = std::fs::remove_dir_all(&dir);
     rep.require("cpuinfo_variants_run", 10);
+}
+
+
+/// Threads that exit after they were listed but before their name is read: the name read fails
+/// naturally (ENOENT/ESRCH). That failure must be listed, and the dump must succeed.
+fn vanish_before_name_read(rep: &mut Report, rng: &mut Rng, n: usize) {
+    use minidump_writer::verif_hooks::{self, Point};
+    use std::sync::atomic::{AtomicU64, Ordering};
+    use std::sync::Arc;
+    for k in 0..n {
+        let mut b = Builder::new();
+        b.sentinel(rng, Mode::Pause, &StackShape::default(), None, None);
+        let mut exiters = Vec::new();
+        for _ in 0..(2 + k % 3) {
+            exiters.push(b.thread(ThreadKind::Exiter, Some(b"exiter".to_vec())));
+        }
+        b.sentinel(rng, Mode::Pause, &StackShape::default(), None, None);
+        let t = match Target::spawn(b.spec.clone(), &b.opts) {
+            Ok(t) => Arc::new(t),
+            Err(e) => {
+                rep.inconclusive(format!("target did not start: {e}"));
+                continue;
+            }
+        };
+        // which exiters leave: all but one
+        let leave: Vec<(usize, i32)> = exiters.iter().skip(1).map(|&i| (i, t.manifest.tids[i])).collect();
+        let vanished = Arc::new(AtomicU64::new(0));
+        let (t2, l2, v2) = (t.clone(), leave.clone(), vanished.clone());
+        let mut o = DumpOpts::new(t.pid, t.pid);
+        o.failspots.push("StopProcess".into()); // the target keeps running, so the threads can leave
+        let _g = dump::DUMP_LOCK.lock().unwrap_or_else(|e| e.into_inner());
+        verif_hooks::set_sync(Some(Box::new(move |p| {
+            if let Point::BeforeThreadName(tid) = p {
+                if let Some((slot, _)) = l2.iter().find(|(_, x)| *x == tid) {
+                    t2.ctl.set_slot(*slot, SLOT_EXIT_REQ, 1);
+                    let t0 = std::time::Instant::now();
+                    while std::path::Path::new(&format!("/proc/{}/task/{}", t2.pid, tid)).exists() && t0.elapsed().as_secs() < 20 {
+                        std::thread::sleep(std::time::Duration::from_micros(200));
+                    }
+                    if !std::path::Path::new(&format!("/proc/{}/task/{}", t2.pid, tid)).exists() {
+                        v2.fetch_add(1, Ordering::SeqCst);
+                    }
+                }
+            }
+        })));
+        let (out, _) = dump::dump(&o);
+        verif_hooks::set_sync(None);
+        drop(_g);
+        let gone = vanished.load(Ordering::SeqCst) as usize;
+        rep.case(fnv(format!("vanish-name/{k}/{gone}").as_bytes()), gone > 0);
+        rep.count("threads_vanished_before_name_read", gone as u64);
+        match out {
+            Outcome::Ok(img) => {
+                let im = image::decode(&img);
+                rep.count("natural_failure_dumps", 1);
+                let soft = im.soft_errors().unwrap_or(Value::Null);
+                let en = init_entries(&soft, "EnumerateThreadsErrors");
+                let listed: usize = en.iter().map(|v| v.as_array().map(|a| a.iter().filter(|x| x.get("ReadThreadNameFailed").is_some()).count()).unwrap_or(0)).sum();
+                if listed < gone {
+                    rep.violation("C11 thread-name read failure (thread gone) not listed", json!({"threads_gone_before_their_name_was_read": gone, "ReadThreadNameFailed_entries": listed, "soft_errors": soft}));
+                }
+                for (kk, m) in generic_invariants(&im) {
+                    rep.violation(&format!("C11 {kk}"), json!({"case": "threads vanish before name read", "message": m}));
+                }
+            }
+            Outcome::Err(e) => rep.violation("C11 dump failed when threads vanished before their name was read", json!({"error": e.chars().take(200).collect::<String>()})),
+            Outcome::Panic { message, location } => rep.violation(&format!("C11 panic at {location}"), json!({"panic": message})),
+        }
+    }
+    rep.require("threads_vanished_before_name_read", 1);
 }
